@@ -268,11 +268,11 @@ theorem iso_of_heapRel {cass cass' : List Cas} {c' : Cas} (hc : cass[ci]? = some
     rw [phiOf_mem hL hq, slot_new hrel hq n]
     obtain ⟨o, o', ho, _⟩ := hrel q hq
     cases hs : Traverse.slot H q.2 n with
-    | none => exact Or.inl ⟨_, rfl, rfl⟩
+    | none => exact ⟨0, ⟨_, rfl, rfl⟩⟩
     | some v =>
       have hv : alistGet? o.slots n = some v := by
         unfold Traverse.slot at hs; rw [ho] at hs; exact hs
-      exact valRel_exp3 hL hrel haddrs hq ho hv _
+      exact ⟨1, valRel_exp3 hL hrel haddrs hq ho hv 0⟩
   · intro a ha harr
     obtain ⟨q, hq, rfl⟩ := haddrs a ha
     rw [flat_not_array (hL.flat q hq)] at harr
